@@ -596,7 +596,8 @@ def fuzz_campaign(prop, mode, tcfg, seed, work, repdir, violations, notes, agg):
 
 
 def write_evidence(prop, tier, seed, cfg, agg, samples, foreign_samples, violations, known_lines, notes, corpus_runs, wall, fuzz_info, extra=None):
-    os.makedirs(os.path.join(ROOT, "evidence"), exist_ok=True)
+    evdir = os.environ.get("VERIF_EVIDENCE_DIR") or os.path.join(ROOT, "evidence")
+    os.makedirs(evdir, exist_ok=True)
     gen = max(1, agg.get("generated", 0))
     cov = {
         "evaluations": int(agg.get("evaluations", 0) + corpus_runs),
@@ -636,7 +637,7 @@ def write_evidence(prop, tier, seed, cfg, agg, samples, foreign_samples, violati
         "wall_s": round(wall, 2),
         "violations": len(violations),
     }
-    with open(os.path.join(ROOT, "evidence", prop + ".json"), "w") as fh:
+    with open(os.path.join(evdir, prop + ".json"), "w") as fh:
         json.dump(ev, fh, indent=1, sort_keys=False)
         fh.write("\n")
 
